@@ -54,6 +54,9 @@ impl<T> BoundQueue<T> {
     #[inline]
     pub fn close(&self) {
         self.0.tx.clone().close_channel();
+        // closing the receiving half wakes the senders parked in `send`, which otherwise sleep
+        // until somebody drains the queue
+        self.0.rx.lock().unwrap().close();
     }
 
     #[inline]
